@@ -223,7 +223,7 @@ def live_holder_commands(R, fails, stats):
     """every mutating command, started while a live holder runs, must fail without touching the tree"""
     tree = [{"p": "old_name.txt", "k": "f", "c": b"old_name one\nsecond old_name\n", "m": 0o644},
             {"p": "d/old_name_x.rs", "k": "f", "c": b"fn old_name() {}\n", "m": 0o644}]
-    for cmd in ("plan", "rename", "apply", "undo", "redo", "replace"):
+    for cmd in ("plan", "plan_out_dot", "plan_out_abs", "plan_out_updown", "rename", "apply", "undo", "redo", "replace"):
         with cli.Sandbox(tree) as sb:
             # prepare state so that the command would otherwise succeed
             if cmd == "apply":
@@ -240,7 +240,12 @@ def live_holder_commands(R, fails, stats):
             while not (sb.root / ".renamify" / "renamify.lock").exists() and time.time() - t0 < 5:
                 time.sleep(0.01)
             time.sleep(0.05)
+            (sb.root / "d").mkdir(exist_ok=True)
             args = {"plan": ["plan", "old_name", "new_name", "--quiet"], "rename": ["-y", "rename", "old_name", "new_name"],
+                    # the same plan file of the workspace, spelled differently
+                    "plan_out_dot": ["plan", "old_name", "new_name", "--quiet", "--plan-out", "./.renamify/plan.json"],
+                    "plan_out_abs": ["plan", "old_name", "new_name", "--quiet", "--plan-out", str(sb.root / ".renamify" / "plan.json")],
+                    "plan_out_updown": ["plan", "old_name", "new_name", "--quiet", "--plan-out", "d/../.renamify/plan.json"],
                     "apply": ["-y", "apply"], "undo": ["-y", "undo", "latest"], "redo": ["-y", "redo", "latest"],
                     "replace": ["-y", "replace", "--no-regex", "old_name", "zz"]}[cmd]
             rc, o, e = sb.run(["--no-auto-init"] + args)
